@@ -1384,3 +1384,31 @@ Example ex_second_attempt_challenged :
       (t_session ex_mechs 60 (ex_cfg true) (keep_env true) {| w_plain := []; w_tls := [w] |})
   = [[220]; [250]; [504]; [334]; []].
 Proof. vm_compute. reflexivity. Qed.
+
+(* ================================================================== part 12: base64.b64encode output is one line *)
+Local Transparent N.eqb N.leb N.ltb b64_enc.
+
+Lemma b64_chr_no_break : forall v, b64_chr v <> 10 /\ b64_chr v <> 13 /\ b64_chr v <> 32.
+Proof.
+  intros v. unfold b64_chr.
+  destruct (v <? 26) eqn:E1; [lia|]. destruct (v <? 52) eqn:E2; [lia|].
+  destruct (v <? 62) eqn:E3; [lia|]. destruct (v =? 62) eqn:E4; lia.
+Qed.
+
+Definition line_safe (c : N) : Prop := c <> 10 /\ c <> 13 /\ c <> 32.
+
+(* no CR, no LF, no blank, whatever the length of the input: a response is ONE line *)
+Lemma b64_enc_one_line : forall s, Forall line_safe (b64_enc s).
+Proof.
+  assert (P : line_safe 61) by (unfold line_safe; lia).
+  induction s as [|a|a b|a b c s IH] using list_ind3; cbn [b64_enc];
+    repeat (constructor; try apply b64_chr_no_break; try exact P). exact IH.
+Qed.
+
+Lemma b64_enc_length : forall s, length (b64_enc s) = (4 * ((length s + 2) / 3))%nat.
+Proof.
+  induction s as [|a|a b|a b c s IH] using list_ind3; try reflexivity.
+  cbn [b64_enc length]. rewrite IH.
+  replace (S (S (S (length s))) + 2)%nat with (length s + 2 + 1 * 3)%nat by lia.
+  rewrite Nat.div_add by lia. lia.
+Qed.
